@@ -230,6 +230,15 @@ func (fr *Frame) freshResults(s *State, t types.Type) []*Val {
 func (fr *Frame) callFunc(s *State, callee *types.Func, recv *Val, args []*Val, call *ast.CallExpr) []*Val {
 	sig := callee.Type().(*types.Signature)
 	args = fr.packVariadic(s, sig, args, call)
+	// implicit conversion of the arguments to the parameter types (nil, boxing into interfaces)
+	for i := 0; i < sig.Params().Len() && i < len(args); i++ {
+		if args[i] != nil && args[i].Fn == nil {
+			args[i] = fr.convertTo(s, args[i], sig.Params().At(i).Type())
+		}
+	}
+	if r, ok := fr.streamModel(s, callee, recv, args); ok {
+		return r
+	}
 	if c := fr.eng.contractFor(callee); c != nil {
 		return fr.applyContract(s, c, callee, recv, args, call.Pos())
 	}
@@ -371,7 +380,7 @@ func (fr *Frame) bindParam(s *State, o *types.Var, v *Val) {
 		return
 	}
 	if v.Fn == nil && len(v.S) > 48 {
-		v = &Val{T: v.T, S: fr.vc.define(o.Name(), fr.eng.sortOf(v.T), v.S)}
+		v = &Val{T: v.T, S: fr.vc.define(o.Name(), fr.eng.sortOf(v.T), v.S), Dyn: v.Dyn}
 	}
 	s.vars[o] = v
 }
@@ -544,6 +553,7 @@ func (fr *Frame) evalBuiltin(s *State, name string, call *ast.CallExpr) []*Val {
 	case "new":
 		et := t.Underlying().(*types.Pointer).Elem()
 		ref := s.alloc()
+		fr.initObject(s, et, ref)
 		hn, hs := fr.eng.ptrHeap(et)
 		s.setHeap(hn, hs, fmt.Sprintf("(store %s %s %s)", s.heap(hn, hs), ref, fr.eng.zeroOf(et)))
 		return []*Val{{T: t, S: ref}}
